@@ -2,8 +2,11 @@
 
 tie H: coq/Model/ObjectFile.v mirrors objectfile.serialize/deserialize, Archive.save/load,
 binary_txt.bin2asc/asc2bin (+ chunk.chunks), common.make_num and the builtins hex()/int(s, base)/
-hexlify/unhexlify; tie I: coq/Gen/objarch.v is the table of architecture id strings exported from
-/repo on every run.  Props/C14.v proves the round trip on the model (objects without debug info).
+hexlify/unhexlify; coq/Model/DebugInfo.v mirrors debuginfo.DictSerializer / DictDeserializer (type
+ids in first-use order, lazy get_type with memo and worklist); coq/Model/ObjectFileFull.v joins them
+(objects and archives WITH debug info).  tie I: coq/Gen/objarch.v (architecture id strings) and
+coq/Gen/dbgclasses.v (debug type / address / record classes of debuginfo.py, by introspection) are
+exported from /repo on every run.  Props/C14.v proves the round trips on the models.
 
 Every run:
   (a) real `serialize` output of generated and compiler-produced ObjectFile instances is compared
@@ -11,11 +14,15 @@ Every run:
   (c) model `deserialize` vs real `deserialize` on those JSON values and on well-typed mutations
       (missing keys, duplicate ids / global names, unknown sections, bad hex text, unknown arch);
   (d) make_num, hex(), bin2asc, asc2bin on pools;
-  search oracle (independent of the model): real save -> text -> load round trip compared PER
+  (e) debug info, both directions: model dbg_serialize vs debuginfo.serialize and model loader vs
+      debuginfo.deserialize on c3c/cc output (arm, x86_64, riscv, msp430, debug=True), hand-built
+      DebugInfo of every record kind, random type graphs with cycles in random registration order,
+      well-typed mutations of the JSON; whole objects and archives with debug info.  The check first
+      determines which loader the source implements (KeyError on the pointer-first cycle = the
+      unrepaired one, model dbg_deserialize_v1; otherwise dbg_deserialize) and compares with that one;
+  search oracle (independent of the models): real save -> text -> load round trip compared PER
       FIELD (entry_symbol_id, arch, section identity inside images and debug info included — the
       implementation's __eq__ ignores some of them), archives, and link(reloaded) == link(original).
-Debug info is validated only (oracle on compiler output with debug=True and on hand-built
-DebugInfo objects); it is not in the Coq model.
 """
 import copy
 import io
@@ -30,14 +37,22 @@ RULE = ('objects are built through the ObjectFile API from ctx.rng: 0-4 sections
         '0-6 symbols (unique ids, local/global/undefined/absolute, negative and 70-bit values, typ/size None or set), '
         '0-4 relocations (negative addends), 0-2 images of several sections, entry id None/0/other, all 67 arch ids; '
         'plus c3c/cc/asm output for arm, x86_64, riscv, msp430 with debug=True and linked images. '
-        'distinct non-trivial = distinct serialized objects that have at least one non-empty section and one symbol')
-EXPLANATION = ('Unbounded Coq theorems on the hand model: hex text of every integer and of every byte list (chunked) '
-               'decodes back; deserialize(serialize o) = Ok o with full record equality for every well-formed object '
-               'without debug info; archives likewise; serialize is injective; anything computed from reloaded objects '
-               'equals the same on the originals. Debug info (debuginfo.serialize/deserialize) is NOT modelled: it is '
-               'validated per field on compiler output (debug=True) and hand-built DebugInfo objects on every run.')
-TRUSTED = ['hand model coq/Model/ObjectFile.v (cross-checked against the implementation on every run: serialize, '
-           'deserialize incl. error outcomes, make_num, hex, bin2asc, asc2bin)',
+        'debug info: c3c/cc output, 5 hand-built DebugInfo, random type graphs (0-6 types, cycles, shuffled registration, '
+        '4% unregistered references) with variables/functions/locations, JSON mutations. '
+        'distinct non-trivial = distinct serialized objects that have at least one non-empty section and one symbol, plus '
+        'distinct serialized DebugInfo with at least one type and one variable or function')
+EXPLANATION = ('Unbounded Coq theorems on the hand models: hex text of every integer and of every byte list (chunked) '
+               'decodes back; deserialize(serialize o) = Ok o with full record equality for every well-formed object, '
+               'without (c14_roundtrip) and WITH debug information (c14_roundtrip_full); debuginfo.deserialize(serialize d) '
+               '= Ok d for every DebugInfo whose referenced types are registered — all record kinds, arbitrary type cycles and '
+               'registration orders, ids in first-use order (c14_debug_roundtrip, repaired loader); the unrepaired loader '
+               'fails on a well-formed witness (c14_debug_pointer_first_refuted), is correct whenever its lazy construction '
+               'goes through (c14_debug_roundtrip_v1, decidable side condition) and is refined by the repaired one; archives '
+               'with debug members; serialize is injective; the introspected class list of debuginfo.py equals the model\'s '
+               'constructor list (c14_debug_classes_covered / _exact).')
+TRUSTED = ['hand models coq/Model/ObjectFile.v, DebugInfo.v, ObjectFileFull.v (cross-checked against the implementation on '
+           'every run: serialize, deserialize incl. error outcomes, make_num, hex, bin2asc, asc2bin, debuginfo.serialize / '
+           'deserialize incl. KeyError outcomes of the lazy loader on random type graphs)',
            'json.dump(indent=2, sort_keys=True) followed by json.load is the identity on values built from None, bool, '
            'int (< 10**4300 for raw ints: CPython int->str digit limit), str, list and str-keyed dict (key order is '
            'irrelevant to the loaders, which index by key); exercised by the oracle, not proved',
@@ -45,13 +60,22 @@ TRUSTED = ['hand model coq/Model/ObjectFile.v (cross-checked against the impleme
            'in the model (cross-checked on boundary pools)',
            'abstraction: an Image is modelled by the list of its section names (exact when section names are unique; '
            'the oracle checks that reloaded images point at the reloaded object\'s own Section objects)',
+           'abstraction: a debug type object is modelled by its position in DebugInfo.types (identity -> position; the '
+           'correspondence renders real object graphs that way in both directions); get_type_id numbering is modelled '
+           'as first-use order over the call sequence of the serializer',
            'architecture = Architecture.make_id_str(); exporter of Gen/objarch.v checks '
-           'get_arch(id).make_id_str() == id for all 67 ids']
+           'get_arch(id).make_id_str() == id for all 67 ids',
+           'exporter of Gen/dbgclasses.v: subclasses of DebugType / DebugBaseInfo and *Address classes of debuginfo.py; '
+           'an *Address class that occurs nowhere in ppci except its own definition (TemporalDebugAddress) is listed '
+           'in the evidence and not exported']
 ASSUMPTIONS = ['wf_obj: bytes in 0..255, unique section names, unique symbol ids, unique global symbol names, undefined '
                'symbols have section None, relocations/images name existing sections, arch is a canonical id of a ppci '
-               'target, debug_info is None; field types are str/int/None as produced by ppci',
-               'int() leniencies (white space, "_", sign or repeated prefix after 0x) and ill-typed JSON fields are '
-               'outside the model of deserialize (never produced by serialize)',
+               'target; field types are str/int/None as produced by ppci',
+               'wf_dbg: every type referenced by a type, variable, parameter or function is registered in DebugInfo.types; '
+               'addresses are DebugAddress / FpOffsetAddress(StackLocation) / UnknownAddress (a DebugFunction with the '
+               'default begin=0/end=0 or a DebugLocation with address None cannot be serialized by ppci at all)',
+               'int() leniencies (white space, "_", sign or repeated prefix after 0x), ill-typed JSON fields and type tables '
+               'with repeated ids are outside the models of the loaders (never produced by the serializers)',
                'SourceLocation.source (cached source text) is not counted as debug information']
 
 NAME_POOL = ['code', 'data', '.text', 'bss', 'a', 'b', 'main', 'x_1', 'sec 2', 'q"t', 'rom', 'Z9']
@@ -108,7 +132,38 @@ def regen(ctx):
             'Definition arch_ids : list string := [\n  ' + ';\n  '.join('"%s"' % s for s in ids) + '].\n')
     changed = ctx.write_gen('objarch', text)
     ctx.cov['stages']['gen_objarch'] = {'ids': len(ids), 'changed_on_disk': changed}
+    cls = debug_classes()
+    text = ('(* generated by tools/props/c14.py by introspection of ppci.binutils.debuginfo:\n'
+            '   strict subclasses of DebugType / DebugBaseInfo and the *Address classes that are used in ppci *)\n'
+            'From Coq Require Import String List.\nImport ListNotations.\nOpen Scope string_scope.\n')
+    for k in ('type', 'addr', 'record'):
+        text += 'Definition dbg_%s_classes : list string := [%s].\n' % (k, '; '.join('"%s"' % c for c in cls[k]))
+    changed = ctx.write_gen('dbgclasses', text)
+    ctx.cov['stages']['gen_dbgclasses'] = dict(cls, changed_on_disk=changed)
     return ids
+
+
+def debug_classes():
+    """tie I: the debug record classes of debuginfo.py, by introspection"""
+    import glob
+    import inspect
+    import os
+    import re
+    from ppci.binutils import debuginfo as di
+    mine = [(n, c) for n, c in inspect.getmembers(di, inspect.isclass) if c.__module__ == di.__name__]
+    types = sorted(n for n, c in mine if issubclass(c, di.DebugType) and c is not di.DebugType)
+    records = sorted(n for n, c in mine if issubclass(c, di.DebugBaseInfo) and c is not di.DebugBaseInfo)
+    root = os.path.dirname(os.path.dirname(os.path.abspath(di.__file__)))
+    src = ''
+    for f in glob.glob(os.path.join(root, '**', '*.py'), recursive=True):
+        with open(f, encoding='utf-8', errors='replace') as fh:
+            src += fh.read()
+    addrs, unused = [], []
+    for n, c in mine:
+        if n.endswith('Address'):
+            uses = len(re.findall(r'\b%s\b' % n, src)) - len(re.findall(r'class\s+%s\b' % n, src))
+            (addrs if uses > 0 else unused).append(n)
+    return {'type': types, 'addr': sorted(addrs), 'record': records, 'declared_but_never_used': sorted(unused)}
 
 
 # ------------------------------------------------------------------ rendering
@@ -487,6 +542,281 @@ def debug_class_audit(ctx):
                                   % ', '.join(new)))
 
 
+# ------------------------------------------------------------------ debug info <-> model
+class NotModelled(Exception):
+    pass
+
+
+def _pos(types, t, extra):
+    for k, x in enumerate(types):
+        if x is t:
+            return k
+    for k, x in enumerate(extra):
+        if x is t:
+            return len(types) + k
+    extra.append(t)
+    return len(types) + len(extra) - 1
+
+
+def _need(c, what):
+    if not c:
+        raise NotModelled(what)
+
+
+def _isint(x):
+    return isinstance(x, int) and not isinstance(x, bool)
+
+
+def dbg_view(dbi):
+    """real DebugInfo -> nested tuples shaped like ToVal_debuginfo; type references are positions in
+    dbi.types (by identity), unregistered types get positions >= len(types)"""
+    from ppci.binutils import debuginfo as di
+    types = list(dbi.types)
+    extra = []
+
+    def loc(l):
+        _need((l.filename is None or isinstance(l.filename, str)) and _isint(l.row) and _isint(l.col)
+              and _isint(l.length), 'source location')
+        return (l.filename, l.row, l.col, l.length)
+
+    def addr(a):
+        if type(a) is di.DebugAddress:
+            _need(_isint(a.symbol_id), 'symbol id')
+            return ('fixed', a.symbol_id)
+        if type(a) is di.FpOffsetAddress:
+            _need(_isint(a.offset.offset) and _isint(a.offset.size), 'stack location')
+            return ('fprel', a.offset.offset, a.offset.size)
+        if type(a) is di.UnknownAddress:
+            return ('unknown',)
+        raise NotModelled('address %r' % (a,))
+
+    def typ(t):
+        if type(t) is di.DebugBaseType:
+            _need(isinstance(t.name, str) and _isint(t.size) and _isint(t.encoding), 'base type')
+            return ('base', t.name, t.size, t.encoding)
+        if type(t) is di.DebugStructType:
+            for f in t.fields:
+                _need(isinstance(f.name, str) and _isint(f.offset), 'field')
+            return ('struct', [(f.name, _pos(types, f.typ, extra), f.offset) for f in t.fields])
+        if type(t) is di.DebugArrayType:
+            _need(_isint(t.size), 'array size')
+            return ('array', _pos(types, t.element_type, extra), t.size)
+        if type(t) is di.DebugPointerType:
+            return ('pointer', _pos(types, t.pointed_type, extra))
+        raise NotModelled('type %r' % (t,))
+
+    def var(v):
+        _need(isinstance(v.name, str), 'variable name')
+        return (v.name, _pos(types, v.typ, extra), loc(v.loc), addr(v.address))
+
+    def fun(f):
+        _need(isinstance(f.name, str), 'function name')
+        for a in f.arguments:
+            _need(isinstance(a.name, str), 'parameter name')
+        return (f.name, loc(f.loc), _pos(types, f.return_type, extra),
+                [(a.name, _pos(types, a.typ, extra)) for a in f.arguments],
+                addr(f.begin), addr(f.end), [var(v) for v in f.variables])
+    # order of _pos calls for unregistered types follows DictSerializer.serialize: types, variables, functions
+    tl = [typ(t) for t in types]
+    vl = [var(v) for v in dbi.variables]
+    fl = [fun(f) for f in dbi.functions]
+    ll = [(loc(l.loc), addr(l.address)) for l in dbi.locations]
+    return (ll, fl, tl, vl)
+
+
+def dbg_term(view):
+    ll, fl, tl, vl = view
+
+    def loc(l):
+        return '(mkLoc %s %s %s %s)' % (opt(coq_str, l[0]), coq_z(l[1]), coq_z(l[2]), coq_z(l[3]))
+
+    def addr(a):
+        if a[0] == 'fixed':
+            return '(AFixed %s)' % coq_z(a[1])
+        if a[0] == 'fprel':
+            return '(AFprel %s %s)' % (coq_z(a[1]), coq_z(a[2]))
+        return 'AUnknown'
+
+    def typ(t):
+        if t[0] == 'base':
+            return 'TBase %s %s %s' % (coq_str(t[1]), coq_z(t[2]), coq_z(t[3]))
+        if t[0] == 'struct':
+            return 'TStruct [%s]' % '; '.join('mkField %s %d%%nat %s' % (coq_str(n), p, coq_z(o)) for n, p, o in t[1])
+        if t[0] == 'array':
+            return 'TArray %d%%nat %s' % (t[1], coq_z(t[2]))
+        return 'TPointer %d%%nat' % t[1]
+
+    def var(v):
+        return 'mkVar %s %d%%nat %s %s' % (coq_str(v[0]), v[1], loc(v[2]), addr(v[3]))
+
+    def fun(f):
+        return 'mkFunc %s %s %d%%nat [%s] %s %s [%s]' % (
+            coq_str(f[0]), loc(f[1]), f[2], '; '.join('mkParam %s %d%%nat' % (coq_str(n), p) for n, p in f[3]),
+            addr(f[4]), addr(f[5]), '; '.join(var(v) for v in f[6]))
+    return '(mkDbg [%s] [%s] [%s] [%s])' % ('; '.join('mkDLoc %s %s' % (loc(l), addr(a)) for l, a in ll),
+                                            '; '.join(fun(f) for f in fl), '; '.join(typ(t) for t in tl),
+                                            '; '.join(var(v) for v in vl))
+
+
+def impl_dbg_deserialize(j):
+    from ppci.binutils import debuginfo as di
+    try:
+        d = di.deserialize(copy.deepcopy(j))
+    except Exception:   # noqa: BLE001
+        return Internal
+    try:
+        return OkV(dbg_view(d))
+    except NotModelled:
+        return None
+
+
+def loader_variant():
+    """which loader does the source implement: 'v1' (KeyError on the pointer-first cycle) or 'v2'"""
+    from ppci.binutils import debuginfo as di
+    st = di.DebugStructType()
+    pt = di.DebugPointerType(st)
+    st.add_field('next', pt, 0)
+    i = di.DebugInfo()
+    i.add(pt)
+    i.add(st)
+    try:
+        di.deserialize(di.serialize(i))
+        return 'v2'
+    except KeyError:
+        return 'v1'
+
+
+def gen_debuginfo(ctx):
+    """random DebugInfo: type graph with cycles in a random registration order, every record kind"""
+    from ppci.binutils import debuginfo as di
+    from ppci.common import SourceLocation
+    from ppci.arch.stack import StackLocation
+    rng = ctx.rng
+    n = rng.randrange(0, 7)
+    kinds = [rng.choice(['base', 'base', 'struct', 'pointer', 'array']) for _ in range(n)]
+    if n and 'base' not in kinds and rng.random() < 0.7:
+        kinds[rng.randrange(n)] = 'base'
+    objs = []
+    for k in kinds:
+        if k == 'base':
+            objs.append(di.DebugBaseType(rng.choice(['int', 'char', 'void*', 'long']), rng.choice([0, 1, 4, 8]),
+                                         rng.choice([1, 1, 4, 8])))
+        elif k == 'struct':
+            objs.append(di.DebugStructType())
+        elif k == 'pointer':
+            objs.append(di.DebugPointerType(di.DebugType()))
+        else:
+            objs.append(di.DebugArrayType(di.DebugType(), rng.randrange(0, 9)))
+    spare = di.DebugBaseType('unregistered', 2, 1)
+
+    def pick():
+        if objs and rng.random() < 0.96:
+            return rng.choice(objs)
+        return spare
+    for o in objs:
+        if isinstance(o, di.DebugStructType):
+            for i in range(rng.randrange(0, 4)):
+                o.add_field(rng.choice(['x', 'next', 'v', 'c']), pick() if objs else spare, 4 * i)
+        elif isinstance(o, di.DebugPointerType):
+            o.pointed_type = pick()
+        elif isinstance(o, di.DebugArrayType):
+            o.element_type = pick()
+    dbi = di.DebugInfo()
+    order = list(objs)
+    rng.shuffle(order)
+    for o in order:
+        dbi.add(o)
+
+    def loc():
+        return SourceLocation(rng.choice(['f.c', '', None, 'dir/m.c3']), rng.randrange(1, 99), rng.randrange(1, 80),
+                              rng.randrange(0, 9))
+
+    def addr():
+        k = rng.randrange(3)
+        if k == 0:
+            return di.DebugAddress(rng.choice([0, 1, 7, 1 << 33]))
+        if k == 1:
+            return di.FpOffsetAddress(StackLocation(rng.choice([-8, -4, 0, 2, 16]), rng.choice([1, 2, 4, 8])))
+        return di.UnknownAddress()
+
+    def var():
+        return di.DebugVariable(rng.choice(['g', 'x', 'tmp']), pick() if objs else spare, loc(), address=addr())
+    if objs or rng.random() < 0.3:
+        for _ in range(rng.randrange(0, 3)):
+            dbi.add(var())
+        for _ in range(rng.randrange(0, 3)):
+            dbi.add(di.DebugFunction(rng.choice(['f', 'main', 'add']), loc(), pick() if objs else spare,
+                                     [di.DebugParameter(rng.choice(['a', 'b']), pick() if objs else spare)
+                                      for _ in range(rng.randrange(0, 3))],
+                                     begin=addr(), end=addr(), variables=[var() for _ in range(rng.randrange(0, 3))]))
+    for _ in range(rng.randrange(0, 3)):
+        dbi.add(di.DebugLocation(loc(), address=addr()))
+    return dbi
+
+
+def dbg_mutations(ctx, j):
+    """well-typed mutations of a serialized DebugInfo"""
+    rng = ctx.rng
+    out = []
+
+    def cp():
+        return copy.deepcopy(j)
+    for k in list(j):
+        m = cp(); del m[k]; out.append(('del ' + k, m))
+    for lst in ('locations', 'types', 'variables', 'functions'):
+        if j[lst]:
+            i = rng.randrange(len(j[lst]))
+            for k in list(j[lst][i]):
+                m = cp(); del m[lst][i][k]; out.append(('del %s[%d].%s' % (lst, i, k), m))
+    ids = [t['id'] for t in j['types']]
+    if len(set(ids)) == len(ids):
+        m = cp(); m['types'].reverse(); out.append(('types reversed', m))
+        m = cp(); rng.shuffle(m['types']); out.append(('types shuffled', m))
+    if j['types']:
+        i = rng.randrange(len(j['types']))
+        m = cp(); m['types'][i]['kind'] = 'typedef'; out.append(('unknown kind', m))
+        m = cp(); m['types'][i]['id'] = 9999; out.append(('renumbered entry', m))
+        for t in j['types']:
+            for k in ('pointed_type', 'element_type'):
+                if k in t:
+                    m = cp(); m['types'][j['types'].index(t)][k] = 4242; out.append(('dangling ' + k, m))
+
+    def addrs(m):
+        for l in m['locations']:
+            yield l['address']
+        for v in m['variables']:
+            yield v['address']
+        for f in m['functions']:
+            yield f['begin']
+            yield f['end']
+            for v in f['variables']:
+                yield v['address']
+    m = cp()
+    for a in addrs(m):
+        a.pop('size', None)
+    out.append(('fprel without size', m))
+    m = cp()
+    for a in addrs(m):
+        a['kind'] = rng.choice(['fixed', 'fprel', 'unknown', 'temporal'])
+    out.append(('address kinds changed', m))
+    m = cp()
+    for a in addrs(m):
+        if 'symbol_id' in a:
+            a['symbol_id'] = 'sym'
+    out.append(('symbol_id text', m))
+    if j['variables']:
+        m = cp(); m['variables'][0]['type'] = 777; out.append(('variable dangling type', m))
+    if j['functions']:
+        m = cp(); m['functions'][0]['return_type'] = 777; out.append(('function dangling type', m))
+        if j['functions'][0]['arguments']:
+            m = cp(); del m['functions'][0]['arguments'][0]['type']; out.append(('del argument type', m))
+    m = cp()
+    for t in m['types']:
+        t.pop('encoding', None)
+    out.append(('base without encoding', m))
+    return out
+
+
 # ------------------------------------------------------------------ mutations for (c)
 def mutations(ctx, d):
     """well-typed mutations of a serialized object; yields (label, dict)"""
@@ -655,6 +985,116 @@ def search(ctx):
     ctx.cov['evaluations'] += n
 
 
+# ------------------------------------------------------------------ debug-info correspondence
+def impl_deserialize_full(d):
+    from ppci.binutils.objectfile import deserialize
+    from ppci.common import CompilerError
+    try:
+        o = deserialize(copy.deepcopy(d))
+    except CompilerError:
+        return Diag
+    except Exception:   # noqa: BLE001
+        return Internal
+    return OkV((obj_fields(o), dbg_view(o.debug_info) if o.debug_info is not None else None))
+
+
+def debug_cases(ctx, ids, gen, real):
+    """model of debuginfo.serialize/deserialize and of objects/archives WITH debug info vs the implementation"""
+    from ppci.binutils import debuginfo as di
+    rng = ctx.rng
+    variant = loader_variant()
+    des = 'dbg_deserialize' if variant == 'v2' else 'dbg_deserialize_v1'
+    desf = 'deserialize_full' if variant == 'v2' else 'deserialize_full_v1'
+    arl = 'archive_load_full' if variant == 'v2' else 'archive_load_full_v1'
+    imports = ['Lib.Json', 'Model.ObjectFile', 'Model.DebugInfo', 'Model.ObjectFileFull']
+    cases, recs = [], []
+    stat = {'loader_variant': variant, 'hand_built': 0, 'compiler': 0, 'random': 0, 'not_modelled': 0,
+            'load_ok': 0, 'load_keyerror': 0, 'with_cycle_or_forward_ids': 0, 'mutated': {'ok': 0, 'internal': 0}}
+    sources = [(lbl, o.debug_info, 'hand_built') for lbl, o, _ in debug_objects(ctx)]
+    # an unregistered type (loading fails) and default begin/end (serializer raises: not modelled, skipped)
+    sources += [(lbl, o.debug_info, 'compiler') for lbl, o in real if o.debug_info is not None]
+    sources += [('random#%d' % k, gen_debuginfo(ctx), 'random') for k in range(140 if ctx.quick() else 900)]
+    seen = set()
+    mut_src = []
+    nontriv = 0
+    for lbl, dbi, kind in sources:
+        try:
+            view = dbg_view(dbi)
+            j = di.serialize(dbi)
+        except (NotModelled, NotImplementedError):
+            stat['not_modelled'] += 1
+            continue
+        key = json.dumps(j, sort_keys=True)
+        if key in seen:
+            continue
+        seen.add(key)
+        out = impl_dbg_deserialize(j)
+        if out is None:
+            stat['not_modelled'] += 1
+            continue
+        stat[kind] += 1
+        stat['load_ok' if isinstance(out, OkV) else 'load_keyerror'] += 1
+        if [t['id'] for t in j['types']] != list(range(len(j['types']))):
+            stat['with_cycle_or_forward_ids'] += 1
+        if j['types'] and (j['variables'] or j['functions']):
+            nontriv += 1
+        cases.append(('let d := %s in (dbg_serialize d, %s (dbg_serialize d))' % (dbg_term(view), des),
+                      (json_val(j), out)))
+        recs.append(('debuginfo serialize / deserialize', lbl))
+        if kind != 'compiler' and len(mut_src) < (5 if ctx.quick() else 40) and j['types'] and j['functions'] \
+                and j['variables'] and j['locations']:
+            mut_src.append((lbl, j))
+    for lbl, j in mut_src:
+        for ml, m in dbg_mutations(ctx, j):
+            out = impl_dbg_deserialize(m)
+            if out is None:
+                continue
+            stat['mutated']['ok' if isinstance(out, OkV) else 'internal'] += 1
+            cases.append(('%s (%s)' % (des, json_term(m)), out))
+            recs.append(('debuginfo.deserialize mutated: ' + ml, lbl))
+    # whole objects with debug info, both directions
+    full = []
+    for lbl, o in real:
+        if o.debug_info is None or not typed(o) or not lbl.startswith(('c3c:', 'cc:', 'link:')):
+            continue
+        try:
+            t = '(mkFull %s (Some %s))' % (obj_term(o), dbg_term(dbg_view(o.debug_info)))
+        except NotModelled:
+            continue
+        if ctx.quick() and len(full) >= 6 and not lbl.startswith('link:layout'):
+            continue
+        d = o.serialize()
+        full.append((t, d))
+        cases.append(('let x := %s in (serialize_full x, %s (serialize_full x))' % (t, desf),
+                      (json_val(d), impl_deserialize_full(d))))
+        recs.append(('object with debug info', lbl))
+    stat['objects_with_debug'] = len(full)
+    # archives whose members carry debug info
+    plain = [('(mkFull %s None)' % obj_term(o), strip_debug(o)) for _, o in gen[:6] if typed(o)]
+    for k in range(3):
+        if not full:
+            break
+        group = rng.sample(full, min(2, len(full))) + rng.sample(plain, min(1, len(plain)))
+        ds = [d for _, d in group]
+        cases.append(('archive_save_full [%s]' % '; '.join(t for t, _ in group), json_val({'objects': ds})))
+        recs.append(('archive_save_full', k))
+        outs = [impl_deserialize_full(d) for d in ds]
+        if all(isinstance(x, OkV) for x in outs):
+            cases.append(('%s (archive_save_full [%s])' % (arl, '; '.join(t for t, _ in group)),
+                          OkV([x.v for x in outs])))
+            recs.append(('archive_load_full', k))
+    ctx.cov['stages']['debug_distribution'] = stat
+    ctx.cov['distinct_nontrivial'] += nontriv
+    bad = ctx.run_cases('debug', imports, cases, shard=100)
+    report_bad(ctx, 'debug info', bad, recs)
+
+
+def strip_debug(o):
+    d = o.serialize()
+    d.pop('debug', None)
+    return d
+
+
 # ------------------------------------------------------------------ main
 def run(ctx):
     from ppci.common import make_num
@@ -670,13 +1110,13 @@ def run(ctx):
         t0 = time.time()
     ids = regen(ctx)
     real = None
-    ok, _ = ctx.build(['Proofs/C14_objfile.vo'])
+    ok, _ = ctx.build(['Proofs/C14_objfile.vo', 'Proofs/C14_full.vo', 'Proofs/C14_classes.vo'])
     if ok:
         ctx.check_props('Props/C14.v')
     debug_class_audit(ctx)
     lap('build+props')
 
-    if ctx.build(['Model/ObjectFile.vo', 'Lib/Val.vo'])[0]:
+    if ctx.build(['Model/ObjectFileFull.vo', 'Lib/Val.vo'])[0]:
         imports = ['Lib.Json', 'Model.ObjectFile']
         # ---- (d) small functions
         cases, recs = [], []
@@ -773,6 +1213,8 @@ def run(ctx):
         bad = ctx.run_cases('objects', imports, cases, shard=100)
         report_bad(ctx, 'objects', bad, recs)
         lap('object cases')
+        debug_cases(ctx, ids, gen, real)
+        lap('debug cases')
 
     # ---- oracle: real round trips, per field; deep when something failed or tier is thorough
     n = oracle(ctx, ids, (not ctx.quick()) or bool(ctx.failed_stages), real)
@@ -797,14 +1239,17 @@ def report_bad(ctx, what, bad, recs):
 
 MANIFEST = {
     'text': 'proof: unbounded Coq theorems that hex text of any integer and of any byte list (30-byte chunking included) '
-            'reads back, that deserialize(serialize o) = Ok o with full record equality (sections, addresses, alignment, '
+            'reads back; that deserialize(serialize o) = Ok o with full record equality (sections, addresses, alignment, '
             'data, symbols incl. undefined/absolute, relocations with negative addends, images, arch, entry_symbol_id) for '
-            'every well-formed object without debug info, and likewise for archives; on a hand model of objectfile.py, '
-            'archive.py, binary_txt.py, make_num that is compared with the implementation (serialize output, deserialize '
-            'results and errors) on every run. Debug info round trip is validated only (per-field, compiler output with '
-            'debug=True and hand-built records).',
-    'note': 'trusted: Coq kernel, the hand model (tie H, cross-checked per run), the exported arch-id table, the JSON text '
-            'layer json.dump/json.load, CPython hex/int/hexlify. Debug info is modelled not at all (validated per field); '
-            'wf_obj excludes duplicate section names and undefined symbols that carry a section. No axioms.',
-    'technique': 'Coq proof over hand model + differential correspondence + per-field round-trip oracle',
+            'every well-formed object, also WITH debug information (locations, functions with begin/end/parameters/locals, '
+            'stack slots with size, the type graph base/struct/array/pointer with any cycles and registration order, '
+            'variables), and likewise for archives; the known loader defect (pointer type registered before its recursive '
+            'struct) is proved as a refutation on the as-is loader model and as a positive theorem on the repaired one; the '
+            'class list of debuginfo.py is checked against the model constructors. Hand models of objectfile.py, archive.py, '
+            'binary_txt.py, make_num, debuginfo.py compared with the implementation in both directions on every run.',
+    'note': 'trusted: Coq kernel, the hand models (tie H, cross-checked per run incl. error outcomes and random recursive '
+            'type graphs), the exported arch-id and debug-class tables, the JSON text layer json.dump/json.load, CPython '
+            'hex/int/hexlify; debug type objects are identified with their position in DebugInfo.types. wf_obj excludes '
+            'duplicate section names and undefined symbols that carry a section; wf_dbg excludes unregistered types. No axioms.',
+    'technique': 'Coq proof over hand models + differential correspondence (both directions) + per-field round-trip oracle',
 }
